@@ -161,7 +161,7 @@ Definition all_protocols (l : list obs) : bool :=
   forallb (fun p => existsb (fun o => mem_nat p (ob_protos o)) l) [0; 1; 2; 3; 4; 5].
 
 Definition is_inst_op (x : op) : bool :=
-  match x with OpDirectlyProvides _ _ | OpAlsoProvides _ _ => true | _ => false end.
+  match x with OpDirectlyProvides _ _ | OpAlsoProvides _ _ | OpNoLongerProvides _ _ => true | _ => false end.
 Definition is_decl_op (x : op) : bool :=
   match x with
   | OpClassImplements _ _ | OpClassImplementsOnly _ _ | OpClassImplementsFirst _ _ => true
